@@ -61,6 +61,28 @@ theorem quiescent_threads {w s} (hi : InvTok w s) (hq : ∀ l s', ¬ Step s l s'
     obtain ⟨l, s', hs, _⟩ := act_enabled hi a h
     exact hq l s' hs
 
+/-- conversely, once every thread has finished nothing can move -/
+theorem finished_quiescent {w s} (hi : InvTok w s) (hs : ∀ i, subFinished w s i) (ha : ∀ a, actTerminal (s.acts a)) :
+    ∀ l s', ¬ Step s l s' := by
+  intro l s' hst
+  have hsub : ∀ i, s.spc i = .idle := fun i => (hs i).1
+  have hact : ∀ a x, s.acts a = x → x = .none ∨ x = .done := fun a x hx => by rw [← hx]; exact ha a
+  cases hst with
+  | sLoad i v h hj hv => have := (hs i).2; rw [hi.hw] at hj; omega
+  | sCasOk i exp h he => rw [hsub i] at h; cases h
+  | sCasFail i exp v h hne hv => rw [hsub i] at h; cases h
+  | sCasSpur i exp h => rw [hsub i] at h; cases h
+  | sSched i h => rw [hsub i] at h; cases h
+  | aCall a h => rcases hact a _ h with h | h <;> cases h
+  | aBegin a j rem h => rcases hact a _ h with h | h <;> cases h
+  | aEnd a j rem h => rcases hact a _ h with h | h <;> cases h
+  | aLoad a b h hv => rcases hact a _ h with h | h <;> cases h
+  | aCasOk a h hw => rcases hact a _ h with h | h <;> cases h
+  | aCasFail a h hw => rcases hact a _ h with h | h <;> cases h
+  | aResub a h => rcases hact a _ h with h | h <;> cases h
+  | aDropX a h => rcases hact a _ h with h | h <;> cases h
+  | aDrop a j rem h => rcases hact a _ h with h | h <;> cases h
+
 /-- in a quiescent state nobody holds the token: the word is the idle marker -/
 theorem quiescent_idle {w s} (hi : InvTok w s) (hq : ∀ l s', ¬ Step s l s') : s.holder = none ∧ s.word = .mark := by
   obtain ⟨hs, ha⟩ := quiescent_threads hi hq
